@@ -71,7 +71,7 @@ class SymGen:
                 return VecV([self.of_type(targs[0], depth + 1, f'{hint}{i}') for i in range(n)])
             if path.endswith('string::String'):
                 return StrV('<sym>')
-            if path.endswith('boxed::Box'):
+            if path.endswith('boxed::Box') or path.endswith('sync::Arc') or path.endswith('rc::Rc'):
                 return BoxV(self.of_type(targs[0], depth + 1, hint))
             if info.get('adt_kind') == 'Enum':
                 vs = info['variants']
